@@ -1,5 +1,7 @@
 """C13 -- outbound sink property (see properties.jsonl); parts, oracle and clauses in props/sink_common.py"""
+import gen_iostate as GI
 from props import sink_common as S
+from props import C07 as LIFE
 
 RULE = ("operation sequences on the real sink of a v3/v5 connection (server and client role): tasks started, polled "
         "by hand, dropped; peer acknowledgements singly or batched, of the right or wrong kind/id; back-pressure "
@@ -12,16 +14,59 @@ USES_GEN = False
 WANT = {13}
 
 
+class BpPart(LIFE.IoPart):
+    """where the sink's back-pressure flag comes from: io.rs tells the control service WrBackpressure(on) when the
+    write buffer passes the high watermark and WrBackpressure(off) once it has been flushed.  A notification `on`
+    without a later `off`, on a running connection whose peer accepts bytes again and whose service is ready,
+    leaves every sender parked for good."""
+
+    def _oracle(self, case, obs):
+        if obs == "9999":
+            return "0,1,0"
+        fields = case.split(";")
+        ops = [o for o in (LIFE.nums(f) for f in fields[1:]) if o]
+        steps = self.parse(obs)
+        fin, pending, _tm, codes, _w = steps[-1]
+        if fin != 0 or any(10 <= c < 40 for c in codes):
+            return "1"
+        wr = [c for c in codes if c in (40, 50)]
+        if not wr or wr[-1] != 40:
+            return "1"
+        accept = [op[1] for op in ops if op[0] == 12]
+        ready = [op[1] for op in ops if op[0] == 8]
+        if (accept and accept[-1] != 1) or (ready and ready[-1] != 0):
+            return "1"
+        if any(op[0] in (3, 4, 6, 7, 9, 10) for op in ops):
+            return "1"              # closes, timer expiry, control readiness: other ways for the connection to end
+        # the last operation that removed an obstacle must have been followed by at least one more quiet step
+        last_change = max([i for i, op in enumerate(ops) if op[0] in (8, 12, 2, 1, 13)] or [0])
+        if last_change >= len(ops):
+            return "1"
+        return "0,133,%d" % (len(ops) - 1)
+
+
 def parts(tier, rng):
-    return S.make_parts(tier, rng, WANT, quiesced=True)
+    res = S.make_parts(tier, rng, WANT, quiesced=True)
+    for name, rule, cases in GI.iostate_cases(rng, tier):
+        if "backpressure" in name:
+            res.append(BpPart("io-" + name, "iostate", cases, shards=16, rule=rule))
+    return res
 
 
 def replay_parts(rp):
+    if rp.get("engine") == "iostate":
+        return [BpPart("replay", "iostate", [rp["case"]], shards=1)]
     return S.replay_parts(rp, WANT)
 
 
 def known_signature(part, case, impl_obs, oracle):
+    if isinstance(part, LIFE.IoPart):
+        return None
     return S.known_signature_c13(part, case, impl_obs, oracle) if 13 in WANT else None
 
 
-clause_text = S.clause_text
+def clause_text(part, oracle):
+    if isinstance(part, LIFE.IoPart):
+        return ("the dispatcher announced write back-pressure (on) and never announced that it was lifted although the "
+                "peer accepts bytes again, the service is ready and the connection is running: every sender stays parked")
+    return S.clause_text(part, oracle)
